@@ -233,6 +233,36 @@ pub fn run(tier: Tier) -> i32 {
             });
         }
     }
+    // address alphabet: the map is keyed by the address's text form, so every boundary address must survive
+    let mut addrs: Vec<u32> = vec![0, 1, 0xa, 0x10, 0x0a0000, 0x100000, 0xffffff, 0x00ffff, 0xff0000, 0x0000ff, 0xabcdef, 0x000e00, 0x0e0000, 0x123456];
+    for i in 0..24 {
+        addrs.push(1 << i);
+    }
+    for (k, a) in addrs.iter().enumerate() {
+        let mut planes = Airplanes::new();
+        vclock::set_now(1_000_000_000);
+        for b in [
+            crate::enc::es_frame(17, 5, *a, crate::enc::me_ident(4, 0, "ADDR")),
+            crate::enc::es_frame(17, 5, *a, crate::enc::me_pos_latlon(11, 10000, false, 35.2, -80.2)),
+            crate::enc::es_frame(17, 5, *a, crate::enc::me_pos_latlon(11, 10000, true, 35.2, -80.2)),
+            crate::enc::es_frame(17, 5, addrs[(k + 1) % addrs.len()], crate::enc::me_vel_kt(10, 20, 64)),
+        ] {
+            if let Ok(f) = Frame::from_bytes(&b) {
+                planes.action(f, (35.0, -80.0), 500.0);
+            }
+        }
+        vclock::clear();
+        tr += 1;
+        if let Err(e) = roundtrip_tracker(&planes) {
+            run.violation(Violation {
+                oracle: "serde-round-trip".into(),
+                class: "tracker-round-trip-address".into(),
+                input: format!("tracker with aircraft {a:06x} and {:06x}", addrs[(k + 1) % addrs.len()]),
+                expected: "deserialize(serialize(state)) == state, stable bytes".into(),
+                observed: e.chars().take(400).collect(),
+            });
+        }
+    }
     run.add("tracker_round_trips", tr);
     run.sample(json!({"record": digest::frame_record(&crate::bits::unhex("8d40621d58c382d690c8ac2863a7")).lines().next()}));
     run.sample(json!({"history": "a1.p1.even ; a1.p1.odd ; a1.p1.even", "compared": "canonical tracker state without std-only timestamps, virtual clock +1 s per event in std builds"}));
